@@ -504,8 +504,9 @@ theorem c10_shipped_membrane_blocks_own_signatures (env : Env) (m' : Membrane) (
 /-! ## The translated source agrees with the model
 
 `Operon/Gen/GatesTranslated.lean` is regenerated from the Python AST of `membrane.py` / `innate.py` by
-`harness/vf/extract/py2lean_gates.py` on every run (fail closed: a construct outside the supported subset yields
-`untranslatable …`, which no proof below survives).  Each theorem: for every state and argument the translated piece
+`harness/vf/extract/py2lean_gates.py` on every run (helpers inlined through the call graph, constants resolved to
+their values, logging / naming / early-return differences normalised away; fail closed: a construct outside the
+supported subset yields `untranslatable …`, which the agreement theorem of that piece does not survive).  Each theorem: for every state and argument the translated piece
 of Python computes exactly what the hand-written model computes — so the theorems above are theorems about the
 translated source, not only about a model that testing found to agree with it. -/
 
@@ -525,22 +526,17 @@ theorem c10_translation_agrees_check_rate_limit (m : Membrane) (now : Nat) (hw :
   | none => rfl
   | some r => simp only [hw, decide_eq_true_eq]
 
-/-- The tail of `Membrane.filter` (from `allowed = …` to `return result`), translated statement by statement in
-    source order — audit append, `_total_blocked`, `_blocked_hashes.add`, then the `on_threat` hook whose exception
-    aborts the rest — is the model's `decide` (the request list and `_total_filtered` having been updated earlier in
-    `filter`). -/
-theorem c10_translation_agrees_filter_tail (m : Membrane) (ts : List Nat) (c : Str) (ms : List Sig) (lvl : Nat) :
-    Tr.filterTail { m with reqTimes := ts, totalFiltered := m.totalFiltered + 1 } c ms lvl = m.decide ts c ms lvl := by
-  unfold Tr.filterTail Membrane.decide Membrane.bookBlock
-  by_cases h : lvl < m.threshold
-  · simp [h]
-  · simp only [h, decide_false, Bool.not_false, if_true, if_false]
-    unfold hookRaise
-    cases m.onThreat with
-    | none => rfl
-    | some f =>
-      simp only []
-      split <;> simp_all
+/-- `Membrane.filter`, translated as a whole with every helper it calls inlined through the call graph — counter,
+    rate check on the live limit, the two refusals without scan, the scan over innate + custom + learned signatures
+    with its running maximum, the threshold comparison, and the bookkeeping of the decision in source order (audit
+    append, `_total_blocked`, `_blocked_hashes.add`, then the `on_threat` hook whose exception aborts the rest) — is
+    the model's `Membrane.filter`: same state, same decision, same exception, for every state, time and input. -/
+theorem c10_translation_agrees_filter (env : Env) (m : Membrane) (now : Nat) (c : Str)
+    (hw : m.window = 60 * 1000000) : Tr.filter env m now c = m.filter env now c := by
+  unfold Tr.filter Membrane.filter Membrane.afterRate Membrane.decide Membrane.bookBlock rateCheck prune maxLevel
+    Membrane.active hookRaise
+  simp only [matched_append, maxFrom_append, List.nil_append, hw, critical]
+  cases m.rateLimit <;> simp only [] <;> (repeat' split) <;> simp_all
 
 /-- the allow rule of `InnateImmunity.check`, translated, is the condition of the model's `conclude` -/
 theorem c10_translation_agrees_innate_allow (im : Innate) (ms : List Sig) (errs : List Validator) (lvl : Nat) :
@@ -549,13 +545,13 @@ theorem c10_translation_agrees_innate_allow (im : Innate) (ms : List Sig) (errs 
   unfold Tr.innateAllow lvlAcute
   cases errs <;> simp [Bool.and_assoc]
 
-/-- the head of `_evaluate_inflammation` (total severity, pattern count, the level chain incl. the cooldown tail),
-    translated, is the model's `levelOf` with the cut-offs regenerated from the source -/
+/-- the level chain of the inflammation function (found through the call graph as the method whose result is the
+    `inflammation=` field of the result `check` builds; the locals it reads expanded), translated, is the model's
+    `levelOf` with the cut-offs regenerated from the source -/
 theorem c10_translation_agrees_inflammation (im : Innate) (hc : im.cuts = genCuts) (now : Nat) (ms : List Sig)
     (errs : List Validator) :
-    Tr.newLevel (Tr.totalSeverity (sumLevels ms) errs.length) (maxLevel ms) (Tr.patternCount ms.length errs.length)
-      (im.cooling now) = im.levelOf now ms errs := by
-  unfold Innate.levelOf Tr.newLevel Tr.totalSeverity Tr.patternCount newLevel
+    Tr.newLevel (sumLevels ms) ms.length errs.length (maxLevel ms) (im.cooling now) = im.levelOf now ms errs := by
+  unfold Innate.levelOf Tr.newLevel newLevel
   rw [hc]
   simp only [genCuts, Operon.Gen.Gates.inflCuts, lvlAcute, lvlHigh, lvlMedium, lvlLow, lvlNone, Bool.or_eq_true,
     decide_eq_true_eq]
